@@ -147,6 +147,9 @@ def prepare_variant(host, variant):
     return prep
 
 
+SETUP_RESIDUE = []
+
+
 def make_host_chain(lib):
     """library -> host child with variables and a function -> evaluation ctx"""
     host = lib.create_child_context()
@@ -159,12 +162,21 @@ def make_host_chain(lib):
     # helpers the host defined in yaql itself: def() hands back the context
     # that holds the function; it is part of the prepared chain and lives as
     # long as the host does
+    SETUP_RESIDUE[:] = []
     try:
         eng = common.engine()
+        # (each def() is given a context made for it; like every supplied
+        # context it must come back as it went in - see run_history)
+        given = host.create_child_context()
         prepared = eng('def(total, $1 + coalesce($2, 0))').evaluate(
-            context=host)
+            context=given)
+        leak = supplied_context_residue(given)
+        given = prepared.create_child_context()
         prepared = eng('def(scale, $1 * coalesce($factor, 1))').evaluate(
-            context=prepared)
+            context=given)
+        leak = leak or supplied_context_residue(given)
+        if leak:
+            SETUP_RESIDUE.append(leak)
         prepared['$twice'] = eng('lambda($ * 2 + coalesce($2, 0))').evaluate(
             context=common.std_context(delegates=True))
         host = prepared
@@ -651,6 +663,13 @@ def run_history(run, case):
     import yaql as _yaql0
     lib = bare_library() if bare else _yaql0.create_context()
     host, _ = make_host_chain(lib)
+    if SETUP_RESIDUE:
+        run.case(case, False, cls=['history'])
+        run.violate('supplied-context-changed', case,
+                    'def(total, ..) left %s in the context passed to '
+                    'evaluate() while the host prepared its chain' %
+                    SETUP_RESIDUE[0], input_class='def(total, ..)')
+        return
     engs = {True: _engine(True), False: _engine(False)}
     parsed = {}
     seen = {}
